@@ -302,4 +302,78 @@ theorem perm_sortDir (bw : Bool) (l : List Ev) : (sortDir bw l).Perm l := by
   · exact perm_sortEv l
   · exact perm_sortEvDesc l
 
+/-! ### stability: events with the same date keep the order of the `listeners` list, in both directions
+
+(`sorted` is stable, and `reverse=True` keeps the original order of equal keys as well) -/
+
+/-- ascending dates, equal dates by increasing listener index -/
+def lexAsc (a b : Ev) : Prop := a.t < b.t ∨ (a.t = b.t ∧ a.idx < b.idx)
+
+/-- descending dates, equal dates by increasing listener index -/
+def lexDesc (a b : Ev) : Prop := b.t < a.t ∨ (a.t = b.t ∧ a.idx < b.idx)
+
+theorem stable_ins (x : Ev) (l : List Ev) (h : l.Pairwise lexAsc) (hx : ∀ y ∈ l, x.idx < y.idx) :
+    (ins x l).Pairwise lexAsc := by
+  induction l with
+  | nil => simp [ins]
+  | cons c l ih =>
+    unfold ins
+    rw [List.pairwise_cons] at h
+    split
+    · rename_i hxc
+      refine List.pairwise_cons.2 ⟨?_, List.pairwise_cons.2 h⟩
+      intro y hy
+      have hi := hx y hy
+      have hcy : c.t ≤ y.t := by
+        rcases List.mem_cons.1 hy with rfl | hy'
+        · exact le_refl _
+        · rcases h.1 y hy' with h1 | ⟨h1, -⟩ <;> omega
+      unfold lexAsc
+      omega
+    · rename_i hxc
+      refine List.pairwise_cons.2 ⟨?_, ih h.2 (fun y hy => hx y (List.mem_cons_of_mem _ hy))⟩
+      intro y hy
+      rcases mem_ins.1 hy with rfl | hy
+      · left; omega
+      · exact h.1 y hy
+
+theorem stable_sortEv (l : List Ev) (h : l.Pairwise (fun a b => a.idx < b.idx)) : (sortEv l).Pairwise lexAsc := by
+  induction l with
+  | nil => simp [sortEv]
+  | cons a l ih =>
+    rw [List.pairwise_cons] at h
+    exact stable_ins a _ (ih h.2) (fun y hy => h.1 y (mem_sortEv.1 hy))
+
+theorem stable_insDesc (x : Ev) (l : List Ev) (h : l.Pairwise lexDesc) (hx : ∀ y ∈ l, x.idx < y.idx) :
+    (insDesc x l).Pairwise lexDesc := by
+  induction l with
+  | nil => simp [insDesc]
+  | cons c l ih =>
+    unfold insDesc
+    rw [List.pairwise_cons] at h
+    split
+    · rename_i hxc
+      refine List.pairwise_cons.2 ⟨?_, List.pairwise_cons.2 h⟩
+      intro y hy
+      have hi := hx y hy
+      have hcy : y.t ≤ c.t := by
+        rcases List.mem_cons.1 hy with rfl | hy'
+        · exact le_refl _
+        · rcases h.1 y hy' with h1 | ⟨h1, -⟩ <;> omega
+      unfold lexDesc
+      omega
+    · rename_i hxc
+      refine List.pairwise_cons.2 ⟨?_, ih h.2 (fun y hy => hx y (List.mem_cons_of_mem _ hy))⟩
+      intro y hy
+      rcases mem_insDesc.1 hy with rfl | hy
+      · left; omega
+      · exact h.1 y hy
+
+theorem stable_sortEvDesc (l : List Ev) (h : l.Pairwise (fun a b => a.idx < b.idx)) : (sortEvDesc l).Pairwise lexDesc := by
+  induction l with
+  | nil => simp [sortEvDesc]
+  | cons a l ih =>
+    rw [List.pairwise_cons] at h
+    exact stable_insDesc a _ (ih h.2) (fun y hy => h.1 y (mem_sortEvDesc.1 hy))
+
 end BeyondVerif.Listen
